@@ -613,3 +613,65 @@ Proof.
     + rewrite <- map_app. apply IC. exact Hbk.
     + rewrite <- map_app. apply IC2. exact Hbk.
 Qed.
+
+(* ------------------------------------------------------------------ *)
+(* weight 0: a codeword is returned unchanged *)
+Lemma zero_syndromes_flag c k : Forall byte c -> block_ok k (map toF c) ->
+  snd (primitive_element_evaluation c k) = false.
+Proof.
+  intros Hc Hb. destruct (syndromes_spec c k Hc) as [B S]. cbv zeta in B, S.
+  unfold primitive_element_evaluation in *. cbn [fst snd] in *.
+  set (out := pee_go k (rev c) (powers (length c))) in *.
+  destruct (existsb (fun o => negb (N.eqb o 0)) out) eqn:E; [|reflexivity]. exfalso.
+  apply existsb_exists in E. destruct E as [o [Ho Hn]]. apply negb_true_iff, N.eqb_neq in Hn. apply Hn.
+  apply toF_zero_iff; [rewrite Forall_forall in B; now apply B|].
+  assert (In (toF o) (map toF out)) as Hin by (apply in_map; exact Ho).
+  rewrite S in Hin. apply in_map_iff in Hin. destruct Hin as [j [Ej Hj]]. rewrite <- Ej.
+  apply Hb. unfold roots. apply in_map_iff. exists j. split; [reflexivity|exact Hj].
+Qed.
+
+Lemma data_blocks_sweep : forallb (fun s => (num_ecc_blocks s <=? num_data_codewords s)%N) all_variants = true.
+Proof. vm_compute. reflexivity. Qed.
+
+Lemma decode_gen_clean data error stride k :
+  stride <> 0%nat -> (1 <= k)%nat -> (1 <= length data)%nat -> (k * stride <= length error + stride - 1)%nat ->
+  snd (primitive_element_evaluation (every stride 0 data ++ every stride 0 error) k) = false ->
+  decode_gen data error stride k = Ok (data, error).
+Proof.
+  intros Hs Hk Hd He Hz. unfold decode_gen.
+  replace (stride =? 0)%nat with false by (symmetry; apply Nat.eqb_neq; exact Hs).
+  replace (1 <=? k)%nat with true by (symmetry; apply Nat.leb_le; exact Hk). cbn [negb].
+  assert (k < (length data + stride - 1) / stride + (length error + stride - 1) / stride)%nat as Hn.
+  { assert (1 <= (length data + stride - 1) / stride)%nat by (apply Nat.div_le_lower_bound; lia).
+    assert (k <= (length error + stride - 1) / stride)%nat by (apply Nat.div_le_lower_bound; lia). lia. }
+  replace (k <? _)%nat with true by (symmetry; apply Nat.ltb_lt; exact Hn). cbn [negb].
+  destruct (primitive_element_evaluation _ k) as [syn hnz]. cbn [snd] in Hz. subst hnz. reflexivity.
+Qed.
+
+Theorem decode_codeword_unchanged s d e :
+  length d = N.to_nat (num_data_codewords s) -> Forall byte d -> encode_error s d = Ok e ->
+  RSDec.decode (d ++ e) s = Ok (d ++ e).
+Proof.
+  intros Ld Hd EE.
+  destruct (encode_error_codeword s d Ld Hd) as (e2 & EE2 & Le & Be & IC). rewrite EE in EE2. inversion EE2; subst e2. clear EE2.
+  set (B := N.to_nat (num_ecc_blocks s)) in *. set (k := N.to_nat (num_ecc_per_block s)) in *.
+  destruct (size_facts s) as [HB Hk]. fold B k in HB, Hk.
+  assert (B <= length d)%nat as HdB.
+  { pose proof (sweep _ data_blocks_sweep s) as T. cbv beta in T. apply N.leb_le in T. unfold B. lia. }
+  unfold RSDec.decode. fold B k.
+  rewrite app_length. replace (length d + length e <? N.to_nat (num_data_codewords s))%nat with false by (symmetry; apply Nat.ltb_ge; lia).
+  rewrite <- Ld. rewrite firstn_app, Nat.sub_diag, firstn_all. cbn [firstn]. rewrite app_nil_r.
+  rewrite skipn_app, Nat.sub_diag, skipn_all. cbn [skipn app].
+  assert (forall m b0, (b0 + m = B)%nat -> decode_blocks d e B k (seq b0 m) = Ok (d, e)) as G.
+  { induction m as [|m IH]; intros b0 Hm; cbn [seq decode_blocks]; [reflexivity|].
+    replace ((length d <? b0)%nat || (length e <? b0)%nat) with false
+      by (symmetry; apply orb_false_iff; split; apply Nat.ltb_ge; nia).
+    rewrite (decode_gen_clean (skipn b0 d) (skipn b0 e) B k); try lia.
+    - cbn [bind]. rewrite !firstn_skipn. apply IH. lia.
+    - rewrite skipn_length. lia.
+    - rewrite skipn_length, Le. nia.
+    - rewrite !every_skipn. rewrite !every_block_of by lia. apply zero_syndromes_flag.
+      + apply Forall_app. split; rewrite <- every_block_of by lia; now apply Forall_every.
+      + rewrite map_app. rewrite <- map_app. apply IC. lia. }
+  rewrite (G B 0%nat) by lia. reflexivity.
+Qed.
